@@ -17,7 +17,9 @@ EPOCH = dt.datetime(2001, 1, 1)
 
 
 def tick_to_dt(t):
-    return None if t is None else EPOCH + dt.timedelta(seconds=t)
+    """Logical tick -> datetime. Successive writes are 200-500 ms apart (many ticks share one wall-clock second, and
+    the sequence also crosses second boundaries): the statements assume only that times increase."""
+    return None if t is None else EPOCH + dt.timedelta(milliseconds=t * 400 + (t % 3) * 100)
 
 
 class Token:
